@@ -113,4 +113,24 @@ def classMutables : List (Nat × Nat × Nat × Nat) :=
    (k! "types.py", k! "DataType", k! "_exclude_fields", k! "set"),
    (k! "types.py", k! "DataType", k! "_pass_fields", k! "set")]
 
+/-- package classes whose instances are shared process-wide (returned by a memoised function or bound to a
+module-level name), with their declared fields -/
+def memoClasses : List (Nat × List Nat) :=
+  [(k! "Import", [k! "from_", k! "import_", k! "alias", k! "reference_path"])]
+
+/-- every store to / delete of an attribute named like a field of such a class, and every dynamic setattr:
+(file, function, target, attribute) -/
+def memoValueWrites : List (Nat × Nat × Nat × Nat) :=
+  [(k! "__init__.py", k! "snooper_to_methods.inner", k! "cls", k! "<dynamic>"),
+   (k! "__main__.py", k! "Config.merge_args", k! "self", k! "<dynamic>"),
+   (k! "imports.py", k! "Imports.__init__", k! "self.alias", k! "alias"),
+   (k! "model/enum.py", k! "Member.__init__", k! "self.alias", k! "alias"),
+   (k! "parser/base.py", k! "Parser.__alias_shadowed_imports", k! "model_field.data_type.import_", k! "import_"),
+   (k! "parser/base.py", k! "Parser.__change_field_name", k! "field.alias", k! "alias"),
+   (k! "parser/base.py", k! "Parser.__change_from_import", k! "data_type.alias", k! "alias"),
+   (k! "parser/base.py", k! "Parser.__collapse_root_models", k! "d.alias", k! "alias"),
+   (k! "parser/base.py", k! "Parser.__set_default_enum_member", k! "enum_member.alias", k! "alias"),
+   (k! "parser/base.py", k! "Parser.__set_default_enum_member", k! "enum_member_.alias", k! "alias"),
+   (k! "reference.py", k! "_BaseModel.__init__", k! "self", k! "<dynamic>")]
+
 end Dcg.Gen.SetSites
